@@ -52,6 +52,28 @@ fn programs(seed: u64, thorough: bool) -> Vec<(String, Vec<String>, Option<Progr
         }
         v.push((format!("gen seed={seed} case={ci}"), cmds, Some(p)));
     }
+    // fixed shapes whose output depends on the ORDER in which the rules of one iteration run:
+    // nested combined rulesets reaching a sub-ruleset through two paths, `:merge new` written by
+    // several rules, print-function row order, extraction ties between rows created by different rules
+    for width in [3usize, 5, 8] {
+        let mut t = String::from("(function f () i64 :merge new)\n(datatype T");
+        for i in 0..width {
+            t.push_str(&format!(" (A{i})"));
+        }
+        t.push_str(" (Pick T))\n(relation fired (T))\n(relation go ())\n(go)\n");
+        for i in 0..width {
+            t.push_str(&format!("(ruleset r{i})\n(rule ((go)) ((set (f) {i}) (fired (A{i})) (union (Pick (A0)) (A{i}))) :ruleset r{i})\n"));
+        }
+        for i in 0..width - 1 {
+            t.push_str(&format!("(unstable-combined-ruleset c{i} r{i} r{})\n", i + 1));
+        }
+        t.push_str("(unstable-combined-ruleset all");
+        for i in 0..width - 1 {
+            t.push_str(&format!(" c{i}"));
+        }
+        t.push_str(")\n(run all 1)\n(print-function fired 100)\n(print-function f 10)\n(extract (Pick (A0)))\n(extract (Pick (A0)) 4)\n(print-size)\n");
+        v.push((format!("fixed diamond-combined-rulesets width={width}"), vec![t], None));
+    }
     // the repository's own small test programs, as whole files
     let mut files: Vec<std::path::PathBuf> = std::fs::read_dir("/repo/tests")
         .map(|rd| rd.flatten().map(|e| e.path()).filter(|p| p.extension().map(|x| x == "egg").unwrap_or(false)).collect())
